@@ -46,6 +46,7 @@ Failed(t) ==
                                      LET p == UP(B.rows[i].a, B.rows[i].b) IN p \in gpairs /\ GAttr(p) # {Rec(B.rows[i])}}
     IN IF back # {} THEN back
     ELSE IF t.held_el_after # t.held_el_before \/ t.held_g_after # t.held_g_before THEN {"earlier_result_changed_by_a_later_conversion"}
+    ELSE IF t.el2_after_edit # t.el2_before_edit THEN {"converted_edge_list_follows_later_edits_of_the_network"}
     ELSE IF t.raised_again # "" THEN {"raised_again"}
     ELSE IF Proj(G2) # Proj(G) THEN {"roundtrip"} ELSE {}
 
